@@ -14,7 +14,18 @@ def hist(cases_q, size_q, cases_t, size_t, **kw):
     return d
 
 
+def enum(engine, **kw):
+    d = dict(engine=engine, nosan=False,
+             phases=dict(quick=[dict(mode="enum", timeout=900)], thorough=[dict(mode="enum", timeout=3000)]))
+    d.update(kw)
+    return d
+
+
 PROPS = {
+    "C13": enum("kern_enum", memory=True, assumptions=["contents are sampled (seeded random, all-ones, single-bit); content dependence of the GF kernels is table lookup, checked entry by entry by C14", "Release configuration (OF_DEBUG off), little-endian x86-64, ASSEMBLY_SSE_OPT off: the configuration the tree builds"]),
+    "C19": enum("prng_enum", assumptions=["the state variable is reached through an optional probe (extern of_seed); without it states are set through of_rfc5170_srand"]),
+    "C20": enum("blk_enum", assumptions=["blocking_struct.c is compiled by translation-unit inclusion with its unconditional printf compiled out"]),
+    "C14": enum("kern_enum", assumptions=["tables are observed through optional probe translation units (harness/probe_gf.c, probe_rs8.c) that include the repository's own headers / source file"]),
     "C01": hist(2500, 200, 30000, 400, assumptions=[RFC_ASSUME, LIN_ASSUME, PROTO_ASSUME]),
     "C02": hist(1500, 200, 20000, 400, assumptions=[LIN_ASSUME, PROTO_ASSUME]),
     "C03": hist(2000, 200, 20000, 400, assumptions=[RFC_ASSUME, LIN_ASSUME, PROTO_ASSUME]),
